@@ -46,9 +46,11 @@ Definition route_of (c : vclass) (op : vbinop) : option vroute :=
   | r => r
   end.
 
-Definition reduce_route (c : vclass) (multi : bool) (r : vreduce) : red_route :=
+(* max/min: multi = several elements per point, args = called with any argument (axis, keepdims, initial, where, ...) *)
+Definition reduce_route (c : vclass) (multi args : bool) (r : vreduce) : red_route :=
   match c with
-  | CScaled => (if multi then fst else snd) (match r with RMax => sav_max | RMin => sav_min end)
+  | CScaled => let '(m, a, n) := match r with RMax => sav_max | RMin => sav_min end in
+               if multi then m else if args then a else n
   | _ => match r with RMax => av_max | RMin => av_min end
   end.
 
@@ -225,7 +227,8 @@ Section Scaled.
     | VRow (fs : list F)                                 (* a point of a multi-element view scaled at once *)
     | V1 (xs : list Z) (s : S) (o : O)                   (* one element per point: x, y, z, 1-element extra dimensions *)
     | V1p (xs : list Z) (ss : list S) (os : list O)      (* 1-D grid with one scale per position *)
-    | V2 (rows : list (list Z)) (ss : list S) (os : list O).   (* points x elements, one scale/offset per element *)
+    | V2 (rows : list (list Z)) (ss : list S) (os : list O)    (* points x elements, one scale/offset per element *)
+    | VMat (k : nat) (m : list (list F)).                      (* a plain 2-D array of values (never produced by a view) *)
 
   Inductive nd := Sc (f : F) | A1 (l : list F) | A2 (k : nat) (m : list (list F)).   (* A2: shape (length m, k) *)
 
@@ -236,7 +239,12 @@ Section Scaled.
     | V1 xs s o => A1 (map (ap s o) xs)
     | V1p xs ss os => A1 (ap_row ss os xs)
     | V2 rows ss os => A2 (length ss) (map (ap_row ss os) rows)
+    | VMat k m => A2 k m
     end.
+
+  (* results that are plain values (numpy arrays / scalars), as opposed to views *)
+  Definition is_value (v : sview) : bool := match v with VScalar _ | VRow _ | VMat _ _ => true | _ => false end.
+  Definition of_nd (a : nd) : sview := match a with Sc f => VScalar f | A1 l => VRow l | A2 k m => VMat k m end.
 
   (* the views a record hands out *)
   Definition wf (v : sview) : Prop :=
@@ -351,14 +359,30 @@ Section Scaled.
     | _ => None
     end.
 
+  (* what the last two branches return: a selection of a multi-element view with fewer than 2 dimensions that carries one
+     scale per position is scaled at once (GiValuesPerPosition); before that rule it escaped as a 1-D view *)
+  Definition gi_finish (multi : bool) (r : sview) : sview :=
+    match sav_getitem_values with
+    | GiValuesPerPosition => if multi then match r with V1p xs ss os => VRow (ap_row ss os xs) | _ => r end else r
+    | GiValuesScalarPairOnly => r
+    end.
+
   Definition view_index (ix : index) (v : sview) : option sview :=
     match branch_of (is_multi v) ix with
     | Some GiIntApply => gi_int_apply ix v
     | Some GiSliceKeep => gi_keep ix v
-    | Some GiPairSliceScales => gi_pair ix v
-    | Some GiOtherKeep => gi_keep ix v
+    | Some GiPairSliceScales => option_map (gi_finish (is_multi v)) (gi_pair ix v)
+    | Some GiOtherKeep => option_map (gi_finish (is_multi v)) (gi_keep ix v)
     | None => None
     end.
+
+  (* a further index on a first-level result: numpy's own on values, the view's on views *)
+  Definition step_index (ix : index) (x : sview) : option sview :=
+    if is_value x then option_map of_nd (np_index ix (materialise x)) else view_index ix x.
+  Fixpoint chain (ixs : list index) (x : sview) : option sview :=
+    match ixs with [] => Some x | ix :: r => match step_index ix x with Some y => chain r y | None => None end end.
+  Fixpoint np_chain (ixs : list index) (a : nd) : option nd :=
+    match ixs with [] => Some a | ix :: r => match np_index ix a with Some b => np_chain r b | None => None end end.
 
   (* max / min over the whole array *)
   Variable fle : F -> F -> bool.      (* the order numpy's max/min use on the values *)
@@ -369,31 +393,45 @@ Section Scaled.
   Definition fold1 {A} (f : A -> A -> A) (l : list A) : option A :=
     match l with [] => None | x :: t => Some (fold_left f t x) end.       (* empty: ValueError *)
 
-  Definition np_reduce (r : vreduce) (a : nd) : option F :=
-    match a with Sc f => Some f | A1 l => fold1 (fred r) l | A2 _ m => fold1 (fred r) (concat m) end.
+  (* whole-array max/min; init = the `initial=` argument (the archetype of an argument expressed in scaled values) *)
+  Definition fold_init {A} (f : A -> A -> A) (init : option A) (l : list A) : option A :=
+    match init with Some i => Some (fold_left f l i) | None => fold1 f l end.
+  Definition np_reduce (r : vreduce) (init : option F) (a : nd) : option F :=
+    match a with
+    | Sc f => fold_init (fred r) init [f]
+    | A1 l => fold_init (fred r) init l
+    | A2 _ m => fold_init (fred r) init (concat m)
+    end.
 
   Inductive red_plan :=
     | PlanGrid (f : option F)                 (* self._apply_scale(self.array.<r>()) *)
-    | PlanMaterialised (r : vreduce) (a : nd) (* np.array(self).<r>() *)
+    | PlanMaterialised (r : vreduce) (init : option F) (a : nd) (* np.array(self).<r>(arguments) *)
     | PlanNone.
-  Definition reduce_plan (r : vreduce) (v : sview) : red_plan :=
-    match reduce_route CScaled (is_multi v) r with
-    | RedMaterialised r' => PlanMaterialised r' (materialise v)
+  Definition reduce_plan (r : vreduce) (init : option F) (v : sview) : red_plan :=
+    if is_value v then PlanMaterialised r init (materialise v) else         (* a plain array: numpy's own max/min *)
+    let has_args := match init with Some _ => true | None => false end in
+    match reduce_route CScaled (is_multi v) has_args r with
+    | RedMaterialised r' => PlanMaterialised r' init (materialise v)
     | RedApplyGrid r' =>
-        match v with
-        | V1 xs s o => PlanGrid (option_map (ap s o) (fold1 (zred r') xs))
-        | _ => PlanNone      (* one extremum of the grid against several scales: a vector, not the extremum *)
+        match v, init with
+        | V1 xs s o, None => PlanGrid (option_map (ap s o) (fold1 (zred r') xs))
+        | _, _ => PlanNone   (* arguments dropped / one extremum of the grid against several scales: not numpy's answer *)
+        end
+    | RedApplyGridArgs r' =>
+        match v, init with
+        | V1 xs s o, None => PlanGrid (option_map (ap s o) (fold1 (zred r') xs))
+        | _, _ => PlanNone   (* an argument expressed in scaled values applied to the stored integers *)
         end
     end.
-  Definition view_reduce (r : vreduce) (v : sview) : option F :=
-    match reduce_plan r v with
+  Definition view_reduce (r : vreduce) (init : option F) (v : sview) : option F :=
+    match reduce_plan r init v with
     | PlanGrid f => f
-    | PlanMaterialised r' a => np_reduce r' a
+    | PlanMaterialised r' i a => np_reduce r' i a
     | PlanNone => None
     end.
 End Scaled.
 
-Arguments VScalar {S O F}. Arguments VRow {S O F}. Arguments V1 {S O F}. Arguments V1p {S O F}. Arguments V2 {S O F}.
+Arguments VScalar {S O F}. Arguments VRow {S O F}. Arguments V1 {S O F}. Arguments V1p {S O F}. Arguments V2 {S O F}. Arguments VMat {S O F}.
 Arguments Sc {F}. Arguments A1 {F}. Arguments A2 {F}.
 Arguments PlanGrid {F}. Arguments PlanMaterialised {F}. Arguments PlanNone {F}.
 
